@@ -1,4 +1,4 @@
-//go:build verif
+//go:build verif && verif_c19
 
 // Verification-only exports (build tag verif): a memberlist-free Peer so that the real delegate's
 // receive path (NotifyMsg / LocalState / MergeRemoteState / GetBroadcasts) can be driven directly.
